@@ -72,8 +72,6 @@ class TripleRule(SHACLRule):
             if len_filtered_focus < 1:
                 return 0
             focus_list = filtered_focus_nodes
-        # uses target nodes to find focus nodes
-        applicable_nodes = self.filter_conditions(focus_list, data_graph)
         all_added = 0
         iterate_limit = int(TRIPLE_RULE_ITERATE_LIMIT)
         while True:
@@ -84,6 +82,9 @@ class TripleRule(SHACLRule):
             iterate_limit -= 1
             added = 0
             to_add = []
+            # the conditions are checked again in every round (like SPARQLRule.apply does): triples
+            # added by an earlier round can make a focus node stop conforming to a condition
+            applicable_nodes = self.filter_conditions(focus_list, data_graph)
             for a in applicable_nodes:
                 s_set = nodes_from_node_expression(self.s, a, data_graph, self.shape.sg)
                 p_set = nodes_from_node_expression(self.p, a, data_graph, self.shape.sg)
